@@ -100,7 +100,7 @@ def _validate(ctx, results, per_batch=3000):
     batches = [traces[i:i + per_batch] for i in range(0, len(traces), per_batch)]
 
     def one(b):
-        return b, ctx.validate({'traces': b}, module='WalkAccept', heap='6g')
+        return b, ctx.validate({'traces': b}, module='WalkAccept', heap='3g')
     out = []
     with cf.ThreadPoolExecutor(max_workers=4) as ex:
         for b, verd in ex.map(one, batches):
@@ -165,8 +165,8 @@ def run(ctx):
     # (runs concurrently with G and V: the JVMs and the Python worker processes share the cores)
     mex = cf.ThreadPoolExecutor(max_workers=2)
     m_futs = [mex.submit(ctx.model, 'WalkGen', 'WalkGenMC' if quick else 'WalkGenMC_thorough', required=ACTIONS,
-                         timeout=3000, workers=8 if quick else 12),
-              mex.submit(ctx.model, 'WalkGen', 'WalkGenLive', required=ACTIONS, timeout=1500, workers=2)]
+                         timeout=3000, workers=8 if quick else 12, heap='3g' if quick else '6g'),
+              mex.submit(ctx.model, 'WalkGen', 'WalkGenLive', required=ACTIONS, timeout=1500, workers=2, heap='2g')]
     ctx.exhaustive = False
 
     # -- G -------------------------------------------------------------------------------------------------------------
@@ -179,8 +179,8 @@ def run(ctx):
         else:
             gens = [({'N': 3, 'MaxMut': 1, 'MaxPark': 1, 'MaxSend': 1, 'Shapes': '1, 2, 3, 4'}, 0, 'both'),
                     ({'N': 2, 'MaxMut': 2, 'MaxPark': 2, 'MaxSend': 1, 'Shapes': '1, 3'}, 0, 'both'),
-                    ({'N': 5, 'MaxMut': 3, 'MaxPark': 2, 'MaxSend': 2, 'Shapes': '1, 2, 3, 4'}, 12000, 'both'),
-                    ({'N': 6, 'MaxMut': 2, 'MaxPark': 2, 'MaxSend': 2, 'Shapes': '1, 2, 3, 4'}, 6000, 'both')]
+                    ({'N': 5, 'MaxMut': 3, 'MaxPark': 2, 'MaxSend': 2, 'Shapes': '1, 2, 3, 4'}, 3000, 'both'),
+                    ({'N': 6, 'MaxMut': 2, 'MaxPark': 2, 'MaxSend': 2, 'Shapes': '1, 2, 3, 4'}, 1500, 'both')]
         items = []
         tid = 0
         nbeh = 0
@@ -255,3 +255,57 @@ def replay(ctx, path):
         print('final source:\n' + me['final_src'])
         print('verdict', sorted(v['bad']), me.get('exc', ''))
     return ctx.finish()
+
+
+def selftest(ctx):
+    """Binding demonstration: corrupt one recorded field of accepted traces; TLC must reject naming the right clause."""
+    import copy
+    from harness import c15_walk as cw
+    src = '[a, [b, [c, d], e], [f, g], h]\n'
+    path = [('body', 0), ('value', None)]
+    cfg = {'on': 'enter', 'back': False, 'recurse': True, 'self': True, 'scope': False}
+
+    class Script:
+        """remove the node named `c` when it is yielded, replace `f` by a list when it is yielded, send(False) at [f, g]"""
+        def park(self, w, g, lv, can_send=True):
+            if g.is_Name and g.id == 'c':
+                w.mutate('remove', g.a, None, 'cur')
+            elif g.is_Name and g.id == 'g':
+                w.mutate('replace', g.a, '[x, y]', 'cur')
+            elif g.is_List and g.src == '[b, [d], e]':
+                pass
+            return
+            yield
+    w = cw.Walk(1, src, path, cfg)
+    cw.drive_walk(w, Script())
+    good = w.trace()
+    ys = [i for i, e in enumerate(good['steps']) if e['k'] == 'yield']
+    muts = [i for i, e in enumerate(good['steps']) if e['k'] == 'mut']
+
+    def corrupt(tid, fn):
+        t = copy.deepcopy(good)
+        t['id'] = tid
+        fn(t)
+        return t
+    after_rm = muts[0] + 1      # the yield after the removal of `c` (must be `d`)
+    after_rp = muts[1] + 1      # the yield after replacing `g` (must be `x`)
+    cases = [
+        (2, 'YieldedAlive', lambda t: t['steps'][ys[3]].update(alive=False)),
+        (3, 'NoDoubleEnter', lambda t: t['steps'][ys[4]].update(s=t['steps'][ys[1]]['s'])),
+        (4, 'RemovedContinues', lambda t: t['steps'].pop(after_rm)),          # `d` skipped after removing `c`
+        (5, 'ReplacedChildrenNext', lambda t: t['steps'].pop(after_rp)),      # new first child not walked next
+        (6, 'FinalSync', lambda t: t['final'].update(srcP=t['final']['srcP'] + 1)),
+        (7, 'NoException', lambda t: t['steps'][-1].update(why='exception', exc='AttributeError')),
+        (8, 'YieldedInTree', lambda t: t['steps'][ys[2]].update(s=999)),
+        (9, 'Terminates', lambda t: t['steps'][-1].update(why='cutoff')),
+    ]
+    batch = {'traces': [good] + [corrupt(tid, fn) for tid, _, fn in cases]}
+    verd = ctx.validate(batch, module='WalkAccept')
+    ok = not verd[1]['bad']
+    print('accepted trace:', 'clean' if ok else verd[1]['bad'])
+    for tid, clause, _ in cases:
+        named = sorted({c for _, c, _ in verd[tid]['bad']})
+        hit = clause in named
+        ok = ok and hit
+        print(f'corruption expecting {clause}: rejected with {named} -> {"ok" if hit else "MISSED"}')
+    return 0 if ok else 2
